@@ -295,7 +295,9 @@ func buildModule(s *stream) *module {
 				cur.byLabel[in.res] = blk.idx
 			}
 			cur.blocks = append(cur.blocks, blk)
-			m.defBlk[in.res] = blk
+			if _, ok := m.defBlk[in.res]; !ok {
+				m.defBlk[in.res] = blk
+			}
 			continue
 		}
 		if blk == nil {
@@ -547,11 +549,14 @@ func (m *module) finishCFG(f *function) {
 
 // dominates reports whether block a dominates block b (reflexive). Both must be reachable.
 func (f *function) dominates(a, b int) bool {
+	if a < 0 || b < 0 || a >= len(f.blocks) || b >= len(f.blocks) {
+		return false
+	}
 	ba, bb := f.blocks[a], f.blocks[b]
 	if !ba.reach || !bb.reach {
 		return false
 	}
-	for bb.domDepth > ba.domDepth {
+	for bb.domDepth > ba.domDepth && bb.idom >= 0 {
 		bb = f.blocks[bb.idom]
 	}
 	return bb == ba
@@ -587,7 +592,13 @@ func (m *module) scalarOf(t *typ) (*typ, uint32) {
 	return nil, 0
 }
 
-func (m *module) describe(id uint32) string {
+func (m *module) describe(id uint32) string { return m.describeD(id, 0) }
+
+func (m *module) describeD(id uint32, depth int) string {
+	if depth > 8 {
+		return "..."
+	}
+	depth++
 	t := m.types[id]
 	if t == nil {
 		return fmt.Sprintf("%%%d(not a type)", id)
@@ -605,17 +616,17 @@ func (m *module) describe(id uint32) string {
 	case tkFloat:
 		return fmt.Sprintf("f%d", t.width)
 	case tkVector:
-		return fmt.Sprintf("vec%d<%s>", t.count, m.describe(t.elem))
+		return fmt.Sprintf("vec%d<%s>", t.count, m.describeD(t.elem, depth))
 	case tkMatrix:
-		return fmt.Sprintf("mat%d<%s>", t.count, m.describe(t.elem))
+		return fmt.Sprintf("mat%d<%s>", t.count, m.describeD(t.elem, depth))
 	case tkArray:
-		return fmt.Sprintf("array<%s,%%%d>#%d", m.describe(t.elem), t.lenID, id)
+		return fmt.Sprintf("array<%s,%%%d>#%d", m.describeD(t.elem, depth), t.lenID, id)
 	case tkRuntimeArray:
-		return fmt.Sprintf("rtarray<%s>#%d", m.describe(t.elem), id)
+		return fmt.Sprintf("rtarray<%s>#%d", m.describeD(t.elem, depth), id)
 	case tkStruct:
 		return fmt.Sprintf("struct#%d", id)
 	case tkPointer:
-		return fmt.Sprintf("ptr<%d,%s>", t.sc, m.describe(t.elem))
+		return fmt.Sprintf("ptr<%d,%s>", t.sc, m.describeD(t.elem, depth))
 	case tkImage:
 		return fmt.Sprintf("image#%d", id)
 	case tkSampler:
